@@ -42,6 +42,7 @@ META["claim"] += " " + 'Round 3b: about half of the receive cases with trace log
 META["claim"] += " " + 'Round 4: the corpus through WebSocketApp with and without on_cont_message; texts with BOM etc.; ambient conditions drawn per connection on the receive path.'
 META["claim"] += " " + 'Round 5: payloads beyond 16 MiB (truncated tail, surrogate at the end, overlong inside, well-formed); close reasons through WebSocketApp with four callback sets (incl. none that receives messages).'
 META["claim"] += " " + 'Rounds 6-7: options after redirects, characters straddling every 2^n boundary, the wsaccel branch (stand-in); ill-formed text after a receive call that failed (timeout, failing pong, interrupt) through every receive call; a reader blocked in a receive call while another thread calls close() and the server answers with an ill-formed reason (all I/O-point interleavings, random line-level ones).'
+META["claim"] += " " + "Round 8: WebSocketApp's per-fragment mode judged for fragmented well-formed text too (known finding: a character split across the first two fragments); constructor options by position."
 
 
 def classify(data: bytes) -> str:
